@@ -96,7 +96,7 @@ pub fn check_sheet(sheet: &Sheet, opts: &Opts) -> Result<Option<Vec<Problem>>, S
     let text = sheet.text();
     let whole = flatten(&text);
     let Some(toks) = piece_tokens(sheet, &whole) else { return Ok(None) };
-    let run = css::transform("m.wxss", &text, opts, 0, true).map_err(|(s, m)| format!("{}: {}", s, m))?;
+    let run = css::transform("m.wxss", &text, opts, 0, true).map_err(|(s, m)| crate::common::panic_err(&text, &opts.to_json(), &s, &m))?;
     let eo = ExpectOpts { class_prefix: opts.class_prefix.as_deref(), class_prefix_sign: opts.class_prefix_sign.as_deref(), rpx_ratio: opts.rpx_ratio };
     let exp = expected(sheet, &toks, &eo);
     let act = actual(&run.normal);
@@ -206,7 +206,7 @@ pub fn check_host_tree(nodes: &[crate::c17::Node], opts: &Opts, newline_before_r
     if piece_tokens(&b.input, &whole).is_none() {
         return Err(format!("model sheet does not tokenise as intended: {:?}", text));
     }
-    let run = css::transform("m.wxss", &text, opts, 0, true).map_err(|(s, m)| format!("{}: {}", s, m))?;
+    let run = css::transform("m.wxss", &text, opts, 0, true).map_err(|(s, m)| crate::common::panic_err(&text, &opts.to_json(), &s, &m))?;
     let eo = ExpectOpts { class_prefix: opts.class_prefix.as_deref(), class_prefix_sign: opts.class_prefix_sign.as_deref(), rpx_ratio: opts.rpx_ratio };
     let lt = b.low.text();
     let Some(ltoks) = piece_tokens(&b.low, &flatten(&lt)) else { return Err("low model sheet".into()) };
@@ -351,7 +351,7 @@ pub fn explore(thorough: bool, result_path: &str) {
             let nodes = crate::c17::unrank_list(k / host_opts.len() as u64, 1, lens1, crate::c17::LEAVES.len() as u64);
             rep.transitions += 1;
             match check_host_tree(&nodes, o, nl) {
-                Err(m) => rep.machinery_errors.push(m),
+                Err(m) => rep.engine_error("C19", m),
                 Ok(None) => rep.count("skipped:host-tree-with-C17-mismatch", 1),
                 Ok(Some(problems)) => {
                     rep.states += 1;
@@ -418,7 +418,7 @@ pub fn explore(thorough: bool, result_path: &str) {
         };
         rep.transitions += 1;
         match check_sheet(&sheet, opts) {
-            Err(m) => rep.machinery_errors.push(format!("compiler panicked on {:?}: {}", sheet.text(), m)),
+            Err(m) => rep.engine_error("C19", m),
             Ok(None) => rep.count("skipped:not-the-intended-tokens-or-C08-mismatch", 1),
             Ok(Some(problems)) => {
                 rep.states += 1;
